@@ -493,7 +493,8 @@ def tpRenderTABLE(self, id, root_url, url, state, substate, diff, data,
         else:
             __traceback_info__ = sub, args, state, substate
             ids = {}
-            for item in items:
+            # an expanded node without the branches method has no items
+            for item in items or ():
                 id = extract_id(item, args['id'])
                 if len(sub) == 1:
                     sub.append([])
